@@ -81,7 +81,36 @@ func TestC09Revisions(t *testing.T) {
 	dbTest(t, "C09", "TestC09Revisions", ruleC09, profC09, Options{})
 }
 
-var profC06 = Profile{W: with(baseWeights(), map[int]int{opWatch: 10, opInsertWatch: 3, opAbort: 3}), TwoTxns: true}
+// mergePreambles: a primary key K that is a strict prefix of other keys which
+// all continue with the same byte (K's radix node has a leaf and exactly one
+// inner child). Channels are taken for queries that resolve below K, then ONE
+// transaction deletes K (the child is merged upwards) and writes below it.
+// P=1 keeps the sampled in-transaction audits (which would iterate the
+// transaction's tree) out of these transactions.
+func mergePreamble(second Op, abortFirst bool) []Op {
+	k, below := []byte{'a', 0x00}, []byte{'a', 0x00, 0x01}
+	ops := []Op{
+		{K: opInsert, ID: []byte{0xff}, P: 1}, {K: opInsert, ID: k, P: 1},
+		{K: opInsert, ID: []byte{'a', 0x00, 0x01, 0x02}, P: 1}, {K: opInsert, ID: []byte{'a', 0x00, 0x01, 0xff}, P: 1},
+		{K: opCommit},
+		{K: opWatch, Q: &Query{Idx: idxID, Kind: qGet, Key: second.ID}},
+		{K: opWatch, Q: &Query{Idx: idxID, Kind: qPrefix, Key: below}},
+		{K: opWatch, Q: &Query{Idx: idxID, Kind: qLowerBound, Key: below}},
+	}
+	txn := []Op{{K: opDelete, ID: k, P: 1}, second}
+	if abortFirst {
+		ops = append(append(ops, txn...), Op{K: opAbort})
+	}
+	return append(append(ops, txn...), Op{K: opCommit})
+}
+
+var profC06 = Profile{W: with(baseWeights(), map[int]int{opWatch: 10, opInsertWatch: 3, opAbort: 3}), TwoTxns: true, PreambleOneIn: 4,
+	Preambles: [][]Op{
+		mergePreamble(Op{K: opInsert, ID: []byte{'a', 0x00, 0x01, 0x00}, P: 1}, false),
+		mergePreamble(Op{K: opInsert, ID: []byte{'a', 0x00, 0x01, 0x00}, P: 1}, true),
+		mergePreamble(Op{K: opDelete, ID: []byte{'a', 0x00, 0x01, 0x02}, P: 1}, false),
+		mergePreamble(Op{K: opInsert, ID: []byte{'a', 0x00, 0x01}, P: 1}, false),
+	}}
 
 const ruleC06 = "histories in which watch channels are taken on fresh snapshots (GetWatch/ListWatch/PrefixWatch/LowerBoundWatch/AllWatch on primary, unique, non-unique and both LPM indexes; InsertWatch) and retained (<=48) across later committed and aborted transactions; checked: open when handed out, closed when the Commit that changes the query's model answer returns, unchanged across aborts, and - at every hook point inside WriteTxn/Commit/Abort and every operation boundary - a channel found closed implies a fresh snapshot with a newer table revision. Non-trivial = a retained channel's answer was changed by a later commit and another retained channel survived an abort that had written to its table; distinct by case encoding."
 
